@@ -45,6 +45,13 @@ Pipeline(h, p) ==
 PipeRows == {[handler |-> h, payload |-> p, expect |-> Pipeline(h, p)] : h \in Handler, p \in Payload}
 ASSUME PrintT(<<"TABLE", "codegen_pipeline", ToJson(PipeRows)>>)
 
+(* the handler's own error status reaches the typed caller with its code, message and headers  *)
+(* whatever the code is - also one the router or a middleware could have produced itself       *)
+ErrorCodes == {400, 404, 408, 429, 500, 505, 520}
+StatusRows == {[code |-> c, message |-> m, expect |-> [result |-> "err", code |-> c, message |-> m, headers_kept |-> TRUE, handler_ran |-> TRUE]] :
+                 c \in ErrorCodes, m \in {"with", "without"}}
+ASSUME PrintT(<<"TABLE", "codegen_statuses", ToJson(StatusRows)>>)
+
 (* Message types whose encoding is empty or that accept "nothing": a payload is handed to the   *)
 (* handler / returned to the typed caller iff the method's codec decodes it as the method's     *)
 (* type; bincode encodes a unit type in zero bytes, JSON never produces or accepts zero bytes   *)
